@@ -578,6 +578,11 @@ def profiles(q):
         "names-wsdl": gen.cfg_with(files=(2, 3), wsdl=True, quarantine=q, name_pool=pool + ["part", "body"], max_words=2, keyword_rate=0.0,
                                    reuse_names=True, p_ref=0.4, p_cross_file=0.7, attr_named_simple=False, avoid_nested_same_name=True, ops=(1, 3),
                                    complex_per_file=(1, 2), simple_per_file=(0, 2), elements_per_file=(1, 2), p_part_name_differs=0.3),
+        # a file and its twin (same layout and local names, other namespace and members), both read in one run
+        "names-twin": gen.cfg_with(files=(2, 3), quarantine=q, name_pool=pool, max_words=2, keyword_rate=0.0, reuse_names=True, p_twin=1.0,
+                                   p_ref=0.5, p_ext=0.6, p_cross_file=0.15, elements_per_file=(1, 3), complex_per_file=(2, 4)),
+        "ext-twin": gen.cfg_with(files=(2, 3), quarantine=q, p_ext=0.8, complex_per_file=(3, 5), simple_per_file=(0, 1), p_twin=1.0,
+                                 elements_per_file=(0, 2), p_cross_file=0.15),
         "ns": gen.cfg_with(files=(2, 4), quarantine=q, adversarial_uris=True, nested_xmlns=0.4, complex_per_file=(1, 2),
                            simple_per_file=(1, 2), elements_per_file=(0, 1), p_cross_file=0.8, default_ns_own=0.4),
         "ns-wsdl": gen.cfg_with(files=(2, 4), wsdl=True, quarantine=q, adversarial_uris=True, nested_xmlns=0.4, complex_per_file=(0, 1),
@@ -687,14 +692,14 @@ def run_c14(tier):
                 if pos.startswith(("target-namespace", "imported-namespace")):
                     # a namespace URI legitimately names its module and prefix
                     import re as _re
-                    new = [i for i in new if not _re.fullmatch(r"mod_[a-z0-9]+", i)]
+                    # (whether that name is a legal identifier is rustc's call, above)
+                    new = [i for i in new if not _re.fullmatch(r"mod_\w+", i)]
                 leaked = [i for i in p.shape["idents"] if gen_c14.MARK in i] + [l for l in p.shape["other_lits"] if gen_c14.MARK in l]
                 if new or leaked:
                     v.violation(f"C14|injection|position={pos}|payload-class={a}|seen-as=identifier-or-code",
                                 {"program": p.label, "new_identifiers": new[:10], "leaked": leaked[:5], "text": text}, files)
                 lits = p.shape["lit_strs"]
-                if pos in ("enumeration", "target-namespace", "imported-namespace", "target-namespace-opaque-uri",
-                           "imported-namespace-opaque-uri"):
+                if pos == "enumeration" or pos.startswith(("target-namespace", "imported-namespace")):
                     if text not in lits:
                         near = [l for l in lits if gen_c14.MARK in l][:3]
                         v.violation(f"C14|literal-value|position={pos}|payload-class={a}",
@@ -707,9 +712,9 @@ def run_c14(tier):
             "evaluations": evaluated, "distinct_nontrivial": len(cells),
             "rule": "hand-built two-file WSDL program (vf/gen_c14.py) with (a) each keyword of the tier's list (quick: the 12 hardest + 6 seeded; "
                     "thorough: all strict, reserved and weak keywords of edition 2024) in each of 8 naming positions (local element, attribute, "
-                    "complex type, simple type, global element, operation, part, service) and (b) each of 14 payload classes in each of 9 text "
+                    "complex type, simple type, global element, operation, part, service) and (b) each of 16 payload classes in each of 15 text "
                     "positions (enumeration value, numeric facet, length facet, simple/complex documentation, target / imported namespace URI, "
-                    "endpoint address, soapAction; the four URI positions both as http:// and as urn: URIs). Oracles: syn parse, rustc compile, component still present (keywords), identifier set "
+                    "endpoint address, soapAction; the four URI positions both as http:// and as urn: URIs, the namespace URIs also with the payload leading the last path segment). Oracles: syn parse, rustc compile, component still present (keywords), identifier set "
                     "equal to the payload-free baseline and marker absent from identifiers and non-string literals (payloads), string "
                     "literal value == original text for enumeration values and namespace URIs. Distinct = (kind, keyword|class, position) cells",
             "exhaustive": tier == "thorough", "keywords": kws, "generator_accepted": accepted, "outcomes": outcomes, "samples": samples or [{"note": "see cells"}],
@@ -788,7 +793,7 @@ def run(prop, tier):
             nontrivial=lambda p: p.stats.get("restr_samples", 0) > p.stats.get("restr_valid_samples", 0), min_eval=4,
             cell_prefix="restr_cell:", eval_key="restr_samples")
     elif prop == "C08":
-        cfgs = pick(q, "ext", "ext-keywords")
+        cfgs = pick(q, "ext", "ext-keywords", "ext-twin")
         check_generic("C08", tier, cfgs, 24, 800, sig_c08, ["static", "probe", stage_runtime], rule=(
             "extension forests: depth 1-4 chains, bases declared before/after/in another file, own content empty / sequences / choices / "
             "attributes, same or different namespaces; oracle = the C02 member-list and typed-probe oracle restricted to derived "
@@ -797,7 +802,7 @@ def run(prop, tier):
             nontrivial=lambda p: any(ft.startswith("extension") for ft in p.ss.features))
     elif prop == "C09":
         from . import engine_w
-        cfgs = pick(q, "names", "names-wsdl")
+        cfgs = pick(q, "names", "names-wsdl", "names-twin")
         check_generic("C09", tier, cfgs, 24, 800, sig_c09,
                       ["static", "probe", stage_runtime, lambda p: engine_w.stage_wsdl(p, full_matrix=False)], rule=(
             "schema sets in which a pool of six words is reused for types in every namespace, global elements, local elements, attributes, "
